@@ -90,7 +90,7 @@ def one(mirpath, k, lanes, ns):
             for pol in ('R', 'ABS'):
                 A = RealAlg() if pol == 'R' else AbsAlg(); vm = VM(mir, A); install_simd(vm, lanes)
                 m, inp, sc, cells, kv = build(vm, L, k, n, A)
-                outs = vm.run(fn, [kv, Opaque('simd')], m)
+                outs = vm.merge_outcomes(vm.run(fn, [kv, Opaque('simd')], m))
                 res['stmts'] += vm.nstmt; res['fns'] |= vm.fns_used
                 if len(outs) != 1 or outs[0][1] != 'ret':
                     res['panics'] += 1; res['bad'].append({'n': n, 'L': lanes, 'policy': pol, 'what': 'panic or fork', 'detail': str([o[1:] for o in outs])[:300]}); continue
